@@ -28,6 +28,52 @@ func strs(v interface{}) []string {
 	return out
 }
 
+// gateConn is a connection whose SetReadBuffer blocks until released: socket.Reset calls it (through
+// TryOptimize) while it holds the socket's mutex, which lets the harness line up two Close calls.
+type gateConn struct {
+	*Conn
+	gate    chan struct{}
+	entered chan struct{}
+	once    sync.Once
+}
+
+func (g *gateConn) SetReadBuffer(int) error {
+	g.once.Do(func() { close(g.entered) })
+	<-g.gate
+	return nil
+}
+func (g *gateConn) SetWriteBuffer(int) error { return nil }
+
+// concurrentClose closes a pooled socket from two goroutines that both find it open.
+func concurrentClose(s socket.Socket) {
+	socket.SetReadBuffer(4096) // makes Reset call SetReadBuffer on connections that have it (only gateConn here)
+	cg, _ := Pipe("plg", "prg")
+	g := &gateConn{Conn: cg, gate: make(chan struct{}), entered: make(chan struct{})}
+	rd := make(chan struct{})
+	go func() { s.Reset(g); close(rd) }()
+	select {
+	case <-g.entered:
+	case <-time.After(time.Second):
+		close(g.gate)
+		<-rd
+		s.Close()
+		return
+	}
+	var wg sync.WaitGroup
+	for i := 0; i < 2; i++ {
+		wg.Add(1)
+		go func() { defer wg.Done(); s.Close() }()
+	}
+	// both closers are past their first (lock-free) look at the state and wait for the mutex
+	for i := 0; i < 50; i++ {
+		runtime.Gosched()
+	}
+	time.Sleep(2 * time.Millisecond)
+	close(g.gate)
+	<-rd
+	wg.Wait()
+}
+
 func msgObserve(m socket.Message) string {
 	st := "nil"
 	if s := m.Status(); s != nil {
@@ -174,10 +220,30 @@ func (d *dataRun) poolCase(c DataCase, out map[string]interface{}) {
 					s.Swap(m)
 				}
 			}
-			s.Close()
+			conc := false
+			for _, mu := range muts {
+				conc = conc || mu == "concclose"
+			}
+			if conc {
+				concurrentClose(s)
+			} else {
+				s.Close()
+			}
 			c2, _ := Pipe("pl2", "pr2")
 			s2 := socket.GetSocket(c2)
 			recycled = s2 == s
+			if conc {
+				// a socket that went back to the pool twice would now be handed to a second user as well
+				cx, _ := Pipe("plx", "prx")
+				s3 := socket.GetSocket(cx)
+				if s3 == s2 {
+					out["equal"] = false
+					out["got"], out["want"] = "the same pooled socket handed to two users", "two different sockets"
+					out["recycled"] = true
+					return
+				}
+				defer s3.Close()
+			}
 			c3, _ := Pipe("pl2", "pr2")
 			fresh := socket.NewSocket(c3)
 			obs := func(x socket.Socket) string {
